@@ -3,7 +3,7 @@ import storecheck
 
 PLAN = {
     "mc": [("StoreMC_wait.cfg", False, True)],
-    "sims": [("StoreSim_wait.cfg", 200, 1500, 61), ("StoreSim_acct.cfg", 60, 400, 61)],
+    "sims": [("StoreSim_wait.cfg", 150, 1500, 61), ("StoreSim_wait2.cfg", 300, 2500, 61), ("StoreSim_acct.cfg", 60, 400, 61)],
     "drivers": [("TestVerif_StoreFree", 4, 30, "store_free.ndjson", None)],
     "assumptions": [
         "a call that does not return within 3 s of the end of its schedule is a hang only if a second execution of the same schedule hangs again",
